@@ -551,6 +551,7 @@ func main() {
 	keyCases(r.Fork(), *nKey, wk)
 	corpusRuns(*corpus, *outDir)
 	decoderRuns(r.Fork(), *nDec, *outDir)
+	ethCallDataRuns(r.Fork(), *outDir)
 	wk.Close(st)
 	ws := &sim.CaseWriter{OutDir: *outDir, Name: "c19sign", Imports: "From V Require Import Bytes Proto.", CaseType: "pcase", MFun: "proto_mismatches", VFun: "", PerShard: 150}
 	signBytesCases(r.Fork(), *nKey, ws, *outDir)
